@@ -380,9 +380,10 @@ class CacheBox:
         return self._value
 
     def resolve(self, value: StrictValue | UnsuspectedHangeulError):
-        self._value = value
-        if self.requestor:
-            self.requestor.resolve(value)
+        box: CacheBox | None = self
+        while box:
+            box._value = value
+            box = box.requestor
 
 
 class Expr:
